@@ -20,6 +20,9 @@ package main
 //   pkg.v[]    an element object of the package-level table v reached through a local alias
 //              (`x := v[k]`, `for _, x := range v`) -- writes only
 //   local.x / deref  writes through a local map/slice/pointer of unknown origin
+//   escape:T.f a function RETURNS the slice or map stored in T.f (or a reslicing of it, or a local bound to it)
+//              instead of a copy: the shared container is handed to the caller, who may treat it as its own.
+//              Recorded as a write; on the read paths of C19 it must therefore be in the allow-list.
 //
 // f_init_only = the function is NOT reachable (through calls or function-value references) from an exported
 // function/method, a closure that is stored somewhere, or a package-level initialiser: it can run only from
@@ -406,14 +409,26 @@ type lkWalk struct {
 	skip      map[ast.Node]bool
 	okLock    map[*ast.CallExpr]bool
 	escLit    map[*ast.FuncLit]bool
-	params    map[types.Object]bool // parameters of the function and of its inlined literals
-	inlineObj map[types.Object]bool // locals bound only to literals that are walked in place
+	ownRet    map[*ast.ReturnStmt]bool // return statements of the function itself (not of a literal inside it)
+	fieldAl   map[types.Object]string  // local bound to a slice/map field (x := e.F, x := e.F[a:b]) -> "T.F"
+	params    map[types.Object]bool    // parameters of the function and of its inlined literals
+	inlineObj map[types.Object]bool    // locals bound only to literals that are walked in place
 }
 
 func (g *lkGen) walkBody(fn *lkFunc, body ast.Node, top *ast.BlockStmt, sig *ast.FuncType) {
 	w := &lkWalk{g: g, fn: fn, fresh: map[types.Object]bool{}, alias: map[types.Object]string{}, wtgt: map[ast.Node]string{},
 		skip: map[ast.Node]bool{}, okLock: map[*ast.CallExpr]bool{}, escLit: map[*ast.FuncLit]bool{},
-		params: map[types.Object]bool{}, inlineObj: map[types.Object]bool{}}
+		params: map[types.Object]bool{}, inlineObj: map[types.Object]bool{},
+		ownRet: map[*ast.ReturnStmt]bool{}, fieldAl: map[types.Object]string{}}
+	ast.Inspect(body, func(n ast.Node) bool {
+		switch x := n.(type) {
+		case *ast.FuncLit:
+			return false
+		case *ast.ReturnStmt:
+			w.ownRet[x] = true
+		}
+		return true
+	})
 	w.addParams(sig)
 	w.classifyLits(body)
 	w.markNested(body)
@@ -919,8 +934,14 @@ func (w *lkWalk) bind(lhs ast.Expr, rhs ast.Expr, ranged bool) {
 	}
 	delete(w.fresh, obj)
 	delete(w.alias, obj)
+	delete(w.fieldAl, obj)
 	if rhs == nil {
 		return
+	}
+	if !ranged {
+		if loc := w.sharedContainer(rhs); loc != "" {
+			w.fieldAl[obj] = loc
+		}
 	}
 	if !ranged && isFreshExpr(rhs) {
 		w.fresh[obj] = true
@@ -960,6 +981,17 @@ func (w *lkWalk) walk(root ast.Node) {
 			}
 			w.markTop(x.Body)
 			w.addParams(x.Type)
+			return true
+		case *ast.ReturnStmt:
+			if w.ownRet[x] {
+				for _, r := range x.Results {
+					if loc := w.sharedContainer(r); loc != "" {
+						// the caller receives the container of a shared object itself, not a copy:
+						// whatever the caller does to its result, it does to the shared object
+						w.acc("escape:"+loc, true, r.Pos())
+					}
+				}
+			}
 			return true
 		case *ast.GoStmt:
 			g.fail(x.Pos(), "go statement is not supported")
@@ -1256,4 +1288,53 @@ func (w *lkWalk) opaqueWrite(recv ast.Expr) {
 			}
 		}
 	}
+}
+
+// sharedContainer: e denotes (a reslicing of) a slice or map that lives in a field of a package struct that is
+// not provably private, in a package-level variable, or in a local that was bound to one of those.
+func (w *lkWalk) sharedContainer(e ast.Expr) string {
+	e = unparen(e)
+	for {
+		sl, ok := e.(*ast.SliceExpr)
+		if !ok {
+			break
+		}
+		e = unparen(sl.X)
+	}
+	isContainer := func(t types.Type) bool {
+		if t == nil {
+			return false
+		}
+		switch t.Underlying().(type) {
+		case *types.Slice, *types.Map:
+			return true
+		}
+		return false
+	}
+	switch x := e.(type) {
+	case *ast.SelectorExpr:
+		sel := w.g.info.Selections[x]
+		if sel == nil || sel.Kind() != types.FieldVal || !isContainer(sel.Type()) || w.isLocalStorage(x.X) {
+			return ""
+		}
+		v := sel.Obj().(*types.Var)
+		owner := w.g.fieldOwner[v]
+		if owner == "" {
+			owner = "?"
+		}
+		return owner + "." + v.Name()
+	case *ast.Ident:
+		v, ok := w.g.info.Uses[x].(*types.Var)
+		if !ok {
+			return ""
+		}
+		if v.Parent() == w.g.pkg.Scope() {
+			if isContainer(v.Type()) {
+				return "pkg." + v.Name()
+			}
+			return ""
+		}
+		return w.fieldAl[v]
+	}
+	return ""
 }
